@@ -31,7 +31,7 @@ def type_default_tok(doc, tid, cid):
 
 class HistoryRun(object):
   def __init__(self, rng, profile=None, formulas=True, n_bundles=15, oracles=("undo", "replica", "schema"),
-               hostile_names=False, setup=None):
+               hostile_names=False, setup=None, tie=None):
     self.rng = rng
     self.gen = Gen(rng, profile, formulas=formulas)
     self.gen.hostile_names = hostile_names
@@ -47,6 +47,17 @@ class HistoryRun(object):
     # feed InitNewDoc's stored actions to the replica
     self._init_replica()
     self.setup = setup
+    self.tie = tie
+    if tie is not None:
+      tie.init(self.doc)
+
+  def _raw(self, uas):
+    """Every bundle applied to the real engine goes through here (recorded, logged, tied)."""
+    res = self.doc.apply(uas)
+    self.log.append(copy.deepcopy(uas))
+    if self.tie is not None:
+      self.tie.bundle(self.doc, res, len(self.log) - 1)
+    return res
 
   def _init_replica(self):
     d0 = ed.Doc(init=False)
@@ -64,8 +75,7 @@ class HistoryRun(object):
     need_before = self.oracles & {"undo", "failed", "redo"}
     before = doc.snapshot() if need_before else None
     schema_before = doc.engine_schema() if "failed" in self.oracles else None
-    res = doc.apply(uas)
-    self.log.append(uas)
+    res = self._raw(uas)
     self.stats["bundles"] += 1
     rec = {"actions": uas, "kinds": list(kinds), "res": res, "before": before}
     self.bundles.append(rec)
@@ -117,9 +127,15 @@ class HistoryRun(object):
   def _resync_replica(self, snap):
     rep = ed.PyReplica()
     for tid, t in snap.items():
-      rep.tables[tid] = {"rows": set(t["ids"]),
+      rep.tables[tid] = {"rows": set(t["ids"]), "types": self._types_of(tid),
                          "cols": {c: dict(zip(t["ids"], vals)) for c, vals in t["cols"].items() if c != "id"}}
     self.replica = rep
+
+  def _types_of(self, tid):
+    try:
+      return {cid: c.type for cid, c in self.doc.engine.schema[tid].columns.items()}
+    except Exception:
+      return {}
 
   def _o_schema(self, rec, when):
     doc = self.doc
@@ -143,8 +159,7 @@ class HistoryRun(object):
     if len(res.stored) >= 2 and len(res.undo) >= 2 and len(set(a[0] for a in res.stored)) >= 2:
       self.stats["nontrivial"] += 1
       rec["nontrivial"] = True
-    u = doc.apply([["ApplyUndoActions", res.raw_undo]], record=False)
-    self.log.append([["ApplyUndoActions", res.raw_undo]])
+    u = self._raw([["ApplyUndoActions", res.raw_undo]])
     if not u.ok:
       self._find("C01", "undo actions rejected: " + u.error[0], u.error[1], rec)
       rec["undo_failed"] = True
@@ -156,12 +171,15 @@ class HistoryRun(object):
     mid = doc.snapshot()
     d = ed.diff_snapshots(before, mid)
     if d:
-      self._find("C01", classify_diff("undo", d[0], rec), "; ".join(d[:3]), rec)
+      drift = ed.numeric_drift(before, mid)
+      if drift and all(x.startswith("cell") for x in d):
+        self._find("C01", DRIFT_SIG % "undo", "%s; drift at %r" % ("; ".join(d[:2]), drift[:2]), rec)
+      else:
+        self._find("C01", classify_diff("undo", d[0], rec), "; ".join(d[:3]), rec)
     if "schema" in self.oracles:
       self._o_schema(rec, "after undo")
     # redo
-    r = doc.apply([["ApplyDocActions", res.raw_stored]], record=False)
-    self.log.append([["ApplyDocActions", res.raw_stored]])
+    r = self._raw([["ApplyDocActions", res.raw_stored]])
     if not r.ok:
       if "redo" in self.oracles:
         self._find("C03", "redo (ApplyDocActions of stored) rejected: " + r.error[0], r.error[1], rec)
@@ -176,7 +194,11 @@ class HistoryRun(object):
     d2 = ed.diff_snapshots(after, post)
     if d2:
       if "redo" in self.oracles:
-        self._find("C03", classify_diff("redo", d2[0], rec), "; ".join(d2[:3]), rec)
+        drift = ed.numeric_drift(after, post)
+        if drift and all(x.startswith("cell") for x in d2):
+          self._find("C03", DRIFT_SIG % "redo", "%s; drift at %r" % ("; ".join(d2[:2]), drift[:2]), rec)
+        else:
+          self._find("C03", classify_diff("redo", d2[0], rec), "; ".join(d2[:3]), rec)
       rec["abandon"] = True
       if "replica" in self.oracles:
         self._resync_replica(post)
@@ -194,8 +216,7 @@ class HistoryRun(object):
     if doc.engine_schema() != schema_before:
       self._find("C04", "engine schema changed by a rejected bundle", rec["res"].error[0], rec)
     self._o_schema(rec, "after rollback")
-    c = doc.apply([["Calculate"]], record=False)
-    self.log.append([["Calculate"]])
+    c = self._raw([["Calculate"]])
     if not c.ok:
       self._find("C04", "Calculate fails after a rejected bundle: " + c.error[0], c.error[1], rec)
     elif c.stored:
@@ -220,6 +241,10 @@ class HistoryRun(object):
       if rec.get("abandon") or rec.get("undo_failed"):
         break
     return self
+
+
+DRIFT_SIG = ("%s: formula cells differ because a type change left numbers that differ only in int-vs-float "
+             "(equal encodings, so no action recorded them) in a column whose type tells them apart")
 
 
 def schema_diff(es, ms):
